@@ -288,9 +288,14 @@ def main(argv=None):
             if arm.exhaustive or v.get("seed") is None or os.environ.get("PV_NO_SHRINK"):
                 shrink_specs.append(None)
                 continue
-            shrink_specs.append({"prop": pid, "arm": aname, "mode": "shrink", "n": v["n"], "seed": v["seed"],
-                                 "target_bucket": b, "ctx": ctx.to_json(),
-                                 "timeout_s": 150 if tier == "quick" else 420})
+            if isinstance(v["case"], dict) and "spec" in v["case"]:
+                # model specs: fast greedy structural reducer (pv/reduce.py)
+                shrink_specs.append({"prop": pid, "arm": aname, "mode": "reduce", "case": v["case"],
+                                     "target_bucket": b, "ctx": ctx.to_json(), "timeout_s": 300})
+            else:
+                shrink_specs.append({"prop": pid, "arm": aname, "mode": "shrink", "n": v["n"], "seed": v["seed"],
+                                     "target_bucket": b, "ctx": ctx.to_json(),
+                                     "timeout_s": 150 if tier == "quick" else 420})
         todo = [s for s in shrink_specs if s is not None]
         shr_res = pool.run_all(todo) if todo else []
         it = iter(shr_res)
